@@ -212,8 +212,13 @@ macro_rules! wide_case {
             let g1 = guarded(|| <$T as Lerp<$F>>::lerp_unclamped(a, b, f));
             let g2 = guarded(|| <$T as Lerp<$F>>::lerp_unclamped_precise(a, b, f));
             let g3 = guarded(|| <&$T as Lerp<$F>>::lerp_unclamped(&a, &b, f));
+            let g4 = guarded(|| <&$T as Lerp<$F>>::lerp_unclamped_precise(&a, &b, f));
+            // the clamped forms at a factor inside [0,1] are the same function
+            let inside = k >= 0 && k <= 8;
+            let g5 = if inside { guarded(|| <$T as Lerp<$F>>::lerp(a, b, f)) } else { g1.clone() };
+            let g6 = if inside { guarded(|| <&$T as Lerp<$F>>::lerp_precise(&a, &b, f)) } else { g4.clone() };
             let mut bad = None;
-            for (api, g) in [("Lerp::lerp_unclamped", &g1), ("Lerp::lerp_unclamped_precise", &g2), ("Lerp::lerp_unclamped", &g3)] {
+            for (api, g) in [("Lerp::lerp_unclamped", &g1), ("Lerp::lerp_unclamped_precise", &g2), ("Lerp::lerp_unclamped", &g3), ("Lerp::lerp_unclamped_precise", &g4), ("Lerp::lerp", &g5), ("Lerp::lerp_precise", &g6)] {
                 if !matches!(g, Ok(v) if *v as i128 == e) && bad.is_none() {
                     bad = Some((api, g.clone()));
                 }
